@@ -298,7 +298,35 @@ def run_enc_vector(i, v):
     return line
 
 
+def run_mpdec_vector(i, v):
+    """IPv4 unicast inside MP_REACH_NLRI / MP_UNREACH_NLRI in every encoding variant: decode only (C09)"""
+    ref = bytes(v['b'])
+    u, var = v['u'], v['var']
+    line = {'id': i, 'kind': 'mpdec', 'cls': 'mp4-%s-n%d-%s' % ('reach' if u['reach'] else 'unreach', len(u['ps']),
+                                                                  ''.join(k[0] for k in ('ext', 'dirty', 'pathids') if var[k]) or 'canon'),
+            'asn4': True, 'ref': list(ref), 'impl': [], 'raised': False, 'none': False, 'rt_ok': False, 'dec_ok': False, 'dec_err': False, 'diff': '', 'ddiff': ''}
+    pf = [M.prefix4(p) for p in u['ps']]
+    if var['pathids']:
+        pf = [{'prefix': p, 'path_id': k + 1} for k, p in enumerate(pf)]
+    if u['reach']:
+        exp = {'attr': {1: 0, 2: [(2, [65001])], 14: {'afi_safi': (1, 1), 'nexthop': '10.0.0.9', 'nlri': pf}}, 'nlri': [], 'withdraw': []}
+    else:
+        exp = {'attr': {15: {'afi_safi': (1, 1), 'withdraw': pf}}, 'nlri': [], 'withdraw': []}
+    try:
+        d = Update.parse(0, ref[19:], True, afi_add_path={'ipv4': True} if var['pathids'] else None)
+        dd = diff(exp, d)
+        if d.get('sub_error'):
+            dd = dd or 'sub_error=%r' % (d['sub_error'],)
+        line['dec_ok'] = dd == ''
+        line['ddiff'] = dd[:300]
+    except Exception as e:
+        line['ddiff'] = 'raised %r' % (e,)
+    return line
+
+
 def run_vector(i, v):
+    if v['kind'] == 'mpdec':
+        return run_mpdec_vector(i, v)
     if v['kind'] == 'mp':
         return run_mp_vector(i, v)
     if v['kind'] == 'enc':
